@@ -6,7 +6,7 @@ Import ListNotations.
 
 (* r1 is r2 with possibly fewer nested details; l1 is a sub-list of l2 in that sense *)
 Inductive le_res : vresult -> vresult -> Prop :=
-| le_vr f v p c s sev d1 d2 : le_list d1 d2 -> le_res (VR f v p c s sev d1) (VR f v p c s sev d2)
+| le_vr f v p c s sev m d1 d2 : le_list d1 d2 -> le_res (VR f v p c s sev m d1) (VR f v p c s sev m d2)
 with le_list : list vresult -> list vresult -> Prop :=
 | le_nil l : le_list [] l
 | le_cons a b l1 l2 : le_res a b -> le_list l1 l2 -> le_list (a :: l1) (b :: l2)
@@ -14,8 +14,8 @@ with le_list : list vresult -> list vresult -> Prop :=
 
 Fixpoint le_res_refl (r:vresult) : le_res r r :=
   match r with
-  | VR f v p c s sev d =>
-    le_vr f v p c s sev d d
+  | VR f v p c s sev m d =>
+    le_vr f v p c s sev m d d
       ((fix go (l:list vresult) : le_list l l :=
           match l with [] => le_nil [] | a :: l' => le_cons a a l' l' (le_res_refl a) (go l') end) d)
   end.
